@@ -33,7 +33,7 @@ def St.set (s : St) (r : Nat) (x : VS) : St := { s with v := s.v.set r x }
   1 acquire, fallible (followed by `goto fail` when it fails)   2 acquire, not checked
   3 NULL-safe release (`Py_XDECREF`, guarded `free`)            4 `var = NULL`
   5 transfer r -> r2 (argument 10*r + r2)                       6 a `goto fail` without acquisition
-  7 release r if variable c is NULL (argument 10*r + c) -/
+  7 release r if variable c is NULL (argument 10*r + c)         8 acquire r if it is NULL (cached object) -/
 abbrev Ev := Nat × Nat
 
 def Ev.fallible (e : Ev) : Bool := e.1 == 1 || e.1 == 6
@@ -54,6 +54,7 @@ def step (s : St) (e : Ev) : St :=
          s1.set e.2 .null
   | 5 => if s.get (e.2 / 10) = .live then s.set (e.2 / 10) .moved else s
   | 7 => if s.get (e.2 % 10) = .null then release s (e.2 / 10) else s
+  | 8 => if s.get e.2 = .null then s.set e.2 .live else s      -- acquire and cache if the variable is NULL
   | _ => s
 
 /-- run the events of one clause; `stop = some i`: the fallible event number `i` fails (it is not
@@ -135,5 +136,46 @@ def progOf (g : GStop) (j : Nat) : Stop :=
   match g with
   | .success => .success
   | .failAt k p i => if j = k then .own (min p 2) i else if j < k then .ext (min p 2 + 1) else .ext (min p 2)
+
+/-! ## Member descriptors of a struct wrapped as a class
+
+`self->{PY_member_object}` (variable 0) and `self->{PY_member_data}` (variable 1) live as long as the
+Python object; the generated setter / getter of a pointer member and `tp_dealloc` act on them. -/
+
+structure Member where
+  pre     : List Ev     -- setter, before the conversion of the new value
+  onFail  : List Ev     -- setter, error branch (`return -1`)
+  onOk    : List Ev     -- setter, after a successful conversion (steals the new references)
+  getter  : List Ev
+  dealloc : List Ev     -- what tp_dealloc / tp_del release for the member
+  deriving Repr, DecidableEq
+
+/-- what a caller can do with the member of one object -/
+inductive DOp where
+  | setOk | setBad | get
+  deriving Repr, DecidableEq
+
+def runEvs (evs : List Ev) (s : St) : St := evs.foldl step s
+
+def Member.run (m : Member) (s : St) : DOp → St
+  | .setOk => runEvs m.onOk (runEvs m.pre s)
+  | .setBad => runEvs m.onFail (runEvs m.pre s)
+  | .get => runEvs m.getter s
+
+def Member.runAll (m : Member) (s : St) (ops : List DOp) : St := ops.foldl m.run s
+
+/-- states between two operations: no error so far, every variable NULL or owned -/
+def cleanStates : List St :=
+  [⟨[.null, .null, .null, .null], false, false⟩, ⟨[.live, .null, .null, .null], false, false⟩,
+   ⟨[.null, .live, .null, .null], false, false⟩, ⟨[.live, .live, .null, .null], false, false⟩]
+
+/-- after deallocation: nothing owned any more, nothing released twice, nothing lost -/
+def St.settled (s : St) : Bool :=
+  !s.dbl && !s.lost && (List.range 4).all (fun i => s.get i != .live)
+
+def Member.check (m : Member) : Bool :=
+  cleanStates.all fun s =>
+    [DOp.setOk, .setBad, .get].all (fun o => cleanStates.contains (m.run s o)) &&
+    (runEvs m.dealloc s).settled
 
 end Shroud.PyRes
